@@ -89,7 +89,8 @@ class Walk:
         # Hand-over rules between properties (root-cause attribution): a walk whose state is
         # no longer a consistent solution for a reason another property owns is stopped
         # before this property's oracle looks at it.
-        if not getattr(self.oracle, "owns_atomicity", False) and not out.ok:
+        user_action = op["op"] in ("add_node", "delete_node", "add_edge", "delete_edge", "swap", "attrs", "paint")
+        if user_action and not getattr(self.oracle, "owns_atomicity", False) and not out.ok:
             if C.canon_diff(pre, post) is not None:
                 self.aborted = "nonatomic_refusal(C11)"
                 return False
